@@ -275,7 +275,11 @@ def accVisitEdges (visit : VisitFn) : List Obs → State → List Dep → State 
 /-- one iteration of `while let Some(k) = stack.pop()` together with the iterations for the keys
     it pushes -/
 def accVisit (P : Nat → Body) : Nat → VisitFn
-  | 0 => fun s _ vis => (s, vis, [])
+  | 0 => fun s d vis =>
+    if d ∈ vis then (s, vis, [])
+    else match d with
+      | .inp _ => (s, d :: vis, [])
+      | .qry _ => (s, vis, [])
   | r + 1 => fun s d vis =>
     if d ∈ vis then (s, vis, [])
     else match d with
@@ -299,6 +303,32 @@ def accumulatedBy (P : Nat → Body) (s : State) (q : Nat) : State × List Nat :
   let f := fetch P s q
   let t := accVisit P (q + 1) f.1 (.qry q) []
   (t.1, t.2.2)
+
+/-! The same search with the explicit stack of accumulated.rs and explicit fuel (one unit per
+    `stack.pop()`); `Proofs/CoreAccStack.lean` shows that with enough fuel it is `accumulatedBy`. -/
+
+-- src/zalsa_local.rs: fn inputs (`origin.inputs()`): the recorded edges, in order
+def Memo.inputs (m : Memo) : List Dep := (m.obs.filter (·.recd)).map (·.dep)
+
+/-- `while let Some(k) = stack.pop() { … }`: the head of the list is the top of the stack, so
+    `stack.extend(origin.inputs().rev())` is `m.inputs ++ rest`.  `none` = out of fuel. -/
+def accLoop (P : Nat → Body) : Nat → State → List Dep → List Dep → List Nat → Option (State × List Nat)
+  | 0, _, _, _, _ => none
+  | _ + 1, s, [], _, out => some (s, out)
+  | n + 1, s, d :: rest, vis, out =>
+    if d ∈ vis then accLoop P n s rest vis out
+    else match d with
+      | .inp _ => accLoop P n s rest (d :: vis) out
+      | .qry k =>
+        let f := fetch P s k
+        match f.1.memos k with
+        | none => accLoop P n f.1 rest (d :: vis) out
+        | some m =>
+          if m.accIn then accLoop P n f.1 (m.inputs ++ rest) (d :: vis) (out ++ m.acc)
+          else accLoop P n f.1 rest (d :: vis) (out ++ m.acc)
+
+def accumulatedByStack (P : Nat → Body) (fuel : Nat) (s : State) (q : Nat) : Option (State × List Nat) :=
+  accLoop P fuel (fetch P s q).1 [.qry q] [] []
 
 /-! ### Writes -/
 
